@@ -290,8 +290,8 @@ func (h *faultHarness) Run(t *testing.T, ci any) *Outcome {
 		if !c.Knobs.Direct {
 			slowed := 0
 			for _, rec := range base.trace {
-				if slowed >= 6 {
-					break
+				if slowed >= 6 && !rec.Write {
+					continue // every write call, and the first six calls of any kind
 				}
 				plans = append(plans, []FaultSpec{{Call: rec.Idx, Mode: "slow", J: int(c.Knobs.Sched>>uint(rec.Idx%32)) % 6}})
 				slowed++
